@@ -242,6 +242,16 @@ func applyOp(m omap, o omOp) (err error) {
 		m.Delete(o.K)
 	case "Filter":
 		m.Filter(pred(o.K))
+	case "FilterPanic": // the callback refuses "a" and panics on "b"; the caller recovers
+		func() {
+			defer func() { _ = recover() }()
+			m.Filter(func(k string, v int) bool {
+				if k == "b" {
+					panic("callback panics on b")
+				}
+				return k != "a"
+			})
+		}()
 	case "Map":
 		failB := o.K == "failB"
 		err = m.Map(func(k string, v int) (int, error) {
